@@ -24,7 +24,7 @@ from kernel import theory
 from logic import basic, logic
 
 PROP = 'C18'
-IMPORTS = 'TruthTable Alethe LaGeneric'
+IMPORTS = 'TruthTable Alethe Alethe2 AletheRes LaGeneric'
 
 A = [Var(n, BoolType) for n in ['p', 'q', 'r', 's', 't']]
 Ta = TVar('a')
@@ -230,8 +230,141 @@ class PF:
         return '(PAtom %d)' % self.atoms[t]
 
 
+def shape_items(seed, rounds):
+    """Directed family: in a correct instance, the main connective of one argument or premise -- at the top or directly
+    under a negation -- is replaced by each of the other binary connectives (the operands stay), and a negation is
+    removed / added around it.  A rule that reads the operands of a formula without testing its connective accepts these."""
+    import random
+    g = G(random.Random(seed * 7919 + 18))
+    conns = [('and', And), ('or', Or), ('imp', Implies), ('iff', Eq), ('xor', xor)]
+
+    def kind(f):
+        if f.is_conj():
+            return 'and'
+        if f.is_disj():
+            return 'or'
+        if f.is_implies():
+            return 'imp'
+        if f.is_equals() and f.arg1.get_type() == BoolType:
+            return 'iff'
+        if logic.is_xor(f):
+            return 'xor'
+        return None
+
+    def variants(f):
+        out = []
+        k = kind(f)
+        if k:
+            out += [mk(f.arg1, f.arg) for nm, mk in conns if nm != k]
+            out += [Not(mk(f.arg1, f.arg)) for nm, mk in conns if nm != k]
+        if f.is_not() and kind(f.arg):
+            k = kind(f.arg)
+            out += [Not(mk(f.arg.arg1, f.arg.arg)) for nm, mk in conns if nm != k]
+            out += [mk(f.arg.arg1, f.arg.arg) for nm, mk in conns]
+        if logic.is_if(f) and f.args[1].get_type() == BoolType:
+            c, a, b = f.args
+            out += [Not(f), And(Implies(c, a), Implies(Not(c), b)), Or(And(c, a), And(Not(c), b))]
+        if f.is_not() and logic.is_if(f.arg) and f.arg.args[1].get_type() == BoolType:
+            out += [f.arg]
+        return out
+    items = []
+    for _ in range(rounds):
+        T = templates(g)
+        for rule, (args, prevs) in T.items():
+            if rule == 'verit_th_resolution':
+                continue
+            for k in range(len(args)):
+                for f2 in variants(args[k]):
+                    items.append((rule, 'shape', tuple(args[:k]) + (f2,) + tuple(args[k + 1:]), list(prevs)))
+            for k in range(len(prevs)):
+                for f2 in variants(prevs[k].prop):
+                    items.append((rule, 'shape', tuple(args), list(prevs[:k]) + [thm(f2)] + list(prevs[k + 1:])))
+    return items
+
+
+def res_items(seed, n):
+    """Directed family for th_resolution: 2-5 premise clauses over few atoms (literals with 0-3 negations, so that both
+    directions of try_resolve occur), duplicate literals inside a clause, a clause repeated next to itself, chains in which
+    the first resolvable pair is not the first pair, sets on which the search gets stuck; stated sizes right or off by one;
+    the stated clause is the one resolve_order computes, that clause extended / shortened / permuted / doubly negated, or
+    a random one.  The two special cases (~true; A and ~~A <--> B) with variations."""
+    import random
+    from smt.veriT import verit_macro as vm
+    r = random.Random(seed * 104729 + 7)
+    atoms = A[:4]
+    items = []
+
+    def lit():
+        t = r.choice(atoms)
+        for _ in range(r.choice([0, 0, 0, 1, 1, 1, 2, 3])):
+            t = Not(t)
+        return t
+    for _ in range(n):
+        k = r.choice([2, 2, 3, 3, 4, 5])
+        clauses = []
+        mode = r.random()
+        if mode < 0.5:
+            # a chain: each clause contains the complement of a literal of an earlier one
+            first = [lit() for _ in range(r.choice([1, 2, 3]))]
+            clauses.append(first)
+            for _ in range(k - 1):
+                src = r.choice(clauses)
+                piv = r.choice(src)
+                comp = piv.arg if (piv.is_not() and r.random() < 0.5) else Not(piv)
+                c = [comp] + [lit() for _ in range(r.choice([0, 1, 2]))]
+                r.shuffle(c)
+                clauses.append(c)
+            if r.random() < 0.4:
+                r.shuffle(clauses)
+        else:
+            clauses = [[lit() for _ in range(r.choice([1, 1, 2, 3]))] for _ in range(k)]
+        if r.random() < 0.25:
+            j = r.randrange(len(clauses))
+            clauses.insert(j, list(clauses[j]))                       # repeated neighbour
+        if r.random() < 0.3:
+            c = r.choice(clauses)
+            c.insert(r.randrange(len(c) + 1), r.choice(c))            # duplicate literal
+        sizes = [len(c) for c in clauses]
+        prevs = [thm(Or(*c)) for c in clauses]
+        try:
+            _, concl = vm.resolve_order([list(c) for c in clauses])
+        except Exception:
+            concl = [lit()]
+        variants = [tuple(concl)]
+        if concl:
+            variants.append(tuple(concl) + (lit(),))
+            variants.append(tuple(concl[:-1]))
+            variants.append(tuple(reversed(concl)))
+            variants.append(tuple(concl[1:]) + (Not(Not(concl[0])),))
+        variants.append(tuple(lit() for _ in range(r.choice([0, 1, 2]))))
+        for cl in variants:
+            items.append(('verit_th_resolution', 'res', (cl, tuple(sizes)), prevs))
+        if r.random() < 0.3:
+            s2 = list(sizes)
+            j = r.randrange(len(s2))
+            s2[j] += r.choice([-1, 1])
+            if s2[j] >= 0:
+                items.append(('verit_th_resolution', 'res', (tuple(concl), tuple(s2)), prevs))
+    a, b = atoms[0], atoms[1]
+    for cl, pv in [((), [Not(true)]), ((), [Not(false)]), ((), [true]), ((a,), [Not(true)]),
+                   ((b,), [a, Eq(Not(Not(a)), b)]), ((b,), [a, Eq(Not(a), b)]), ((a,), [a, Eq(Not(Not(a)), b)]),
+                   ((b,), [b, Eq(Not(Not(a)), b)]), ((b,), [a, Eq(b, Not(Not(a)))]), ((b, a), [a, Eq(Not(Not(a)), b)]),
+                   ((), [a, Not(a)]), ((), [Not(a), a]), ((), [Not(Not(a)), Not(a)]), ((), [a, Not(Not(Not(a)))]),
+                   ((Not(Not(a)),), [Or(a, b), Not(b)]), ((a,), [Or(Not(Not(a)), b), Not(b)])]:
+        items.append(('verit_th_resolution', 'res', (tuple(cl), tuple(1 if not p.is_disj() else 2 for p in pv)), [thm(p) for p in pv]))
+    return items
+
+
 RULES_MODELLED = ['verit_not_or', 'verit_not_and', 'verit_not_not', 'verit_implies', 'verit_and_pos', 'verit_or_pos',
-                  'verit_and', 'verit_or', 'verit_equiv1', 'verit_equiv2', 'verit_not_equiv1', 'verit_not_equiv2', 'verit_false']
+                  'verit_and', 'verit_or', 'verit_equiv1', 'verit_equiv2', 'verit_not_equiv1', 'verit_not_equiv2', 'verit_false',
+                  # Alethe2.v
+                  'verit_or_neg', 'verit_equiv_pos1', 'verit_equiv_pos2', 'verit_equiv_neg1', 'verit_equiv_neg2',
+                  'verit_ite1', 'verit_ite2', 'verit_and_neg', 'verit_contraction', 'verit_implies_pos',
+                  'verit_implies_neg1', 'verit_implies_neg2', 'verit_not_implies1', 'verit_not_implies2',
+                  'verit_ite_pos1', 'verit_ite_pos2', 'verit_ite_neg1', 'verit_ite_neg2', 'verit_not_ite1', 'verit_not_ite2',
+                  'verit_xor_pos1', 'verit_xor_pos2', 'verit_xor_neg1', 'verit_xor_neg2',
+                  # AletheRes.v (accept_res)
+                  'verit_th_resolution']
 
 
 def la_family(run, r, n):
@@ -817,6 +950,7 @@ def run_check(tier, seed):
     exprs, meta = [], []
     mexprs, mmeta = [], []
     devnull = io.StringIO()
+    items = []
     for _ in range(n_rounds):
         T = templates(g)
         for rule, (args, prevs) in T.items():
@@ -825,6 +959,12 @@ def run_check(tier, seed):
                     a2, p2 = near_miss(g, args, prevs, rule)
                 else:
                     a2, p2 = args, prevs
+                items.append((rule, variant, a2, p2))
+    items.extend(shape_items(seed, 4 if tier == 'quick' else 40))
+    items.extend(res_items(seed, 150 if tier == 'quick' else 3000))
+    if True:
+        if True:
+            for rule, variant, a2, p2 in items:
                 macro = theory.global_macros[rule]
                 # every premise gets a hypothesis of its own, so that a conclusion that drops the hypotheses of a premise it
                 # relies on shows up (it may then only rely on the premises whose hypotheses it keeps)
@@ -846,11 +986,16 @@ def run_check(tier, seed):
                 if rule in RULES_MODELLED:
                     pf2 = PF()
                     try:
-                        ga = [pf2.tr(x) for x in a2]
                         gp2 = [pf2.tr(p.prop) for p in p2]
+                        if rule == 'verit_th_resolution':
+                            ga = [pf2.tr(x) for x in a2[0]]
+                            call = 'accept_res %s %s %s' % (g_list(ga), g_list(['%d' % k_ for k_ in a2[1]]), g_list(gp2))
+                        else:
+                            ga = [pf2.tr(x) for x in a2]
+                            call = 'accept_all %s %s %s' % (g_str(rule), g_list(ga), g_list(gp2))
                         gexp = 'None' if not acc else '(Some %s)' % pf2.tr(th.prop)
-                        mexprs.append('(match accept %s %s %s, %s with Some a, Some b => if pf_eqb a b then 1 else 0 | None, None => 1 | _, _ => 0 end)'
-                                      % (g_str(rule), g_list(ga), g_list(gp2), gexp))
+                        mexprs.append('(match %s, %s with Some a, Some b => if pf_eqb a b then 1 else 0 | None, None => 1 | _, _ => 0 end)'
+                                      % (call, gexp))
                         mmeta.append((rule, a2, p2, th, err))
                     except Exception as e:
                         run.stat('translate_exc:' + type(e).__name__)
